@@ -625,6 +625,28 @@ def grid_round(rep, r, tier):
             co['disagree'] += 1
             rep.disagreements.append(('stack_shape', 'stack:shape', {'series': series, 'files': sub},
                                       'model %s vs implementation %s' % (json.dumps(a)[:200], json.dumps(got)[:200])))
+    # ---- ordinates that lie closer together than any rounding a comparison might apply: a complete grid stays a grid
+    for ci in range({'quick': 6, 'thorough': 60}[tier]):
+        series = G.gen_series(r, tier, S=2, T=3, V=1, ordering='explicit')
+        fl = copy.deepcopy(series['files'])
+        for f in fl:
+            f['meta']['EchoTime'] = 12.5001 + 0.0002 * f['t'] + (0.0001 if f['t'] == 2 else 0.0)
+        order = list(range(len(fl)))
+        r.shuffle(order)
+        st, status = stack_from(series, fl, order)
+        rep.evaluations += 1
+        rep.count('grid/tight-ordinates')
+        case = {'suite': 'grid', 'series': series, 'variant': 'tight-ordinates', 'echo_times': sorted({f['meta']['EchoTime'] for f in fl})}
+        if any(s_ != 'ok' for s_ in status):
+            rep.failure('add_dcm refused a file of a complete grid whose time values lie 2e-4 apart: %s' % status, dict(case, tag='grid:reject-complete:tight'))
+            continue
+        q = queries(st)
+        if not all(v == 'ok' for v in q.values()):
+            rep.failure('a complete grid whose time values lie 2e-4 apart is rejected: %s' % q, dict(case, tag='grid:reject-complete:tight'))
+        else:
+            shp = list(quiet(st.get_shape))
+            if shp[2:] != [2, 3]:
+                rep.failure('a complete 2 x 3 grid (time values 2e-4 apart) has shape %s' % shp, dict(case, tag='grid:count:tight'))
     # ---- add-time refusals
     for ci in range({'quick': 30, 'thorough': 400}[tier]):
         series = G.gen_series(r, tier, S=2, T=2, V=1, ordering='explicit')
